@@ -406,6 +406,40 @@ impl Stream for C13 {
         for (name, p) in acceptance_cases() {
             cases.push(Case { kind: "model", labels: vec!["acceptance".into()], request: node("c13-body", vec![node("name", vec![st(name)]), p.sexp()]) });
         }
+        // declared parameter types that differ from the signal's argument type — also those a static cast would convert —
+        // must be refused ("incompatible callback arguments"); and raw spellings of handlers that must be connected once
+        {
+            let castable: &[(&str, usize, &[&str])] = &[
+                ("fired2", 0, &["uint", "double", "bool", "QString"]),
+                ("fired2", 1, &["int", "bool", "double"]),
+                ("defaulted", 0, &["int", "uint", "double", "QString"]),
+                ("moved", 0, &["VOther", "VDerived", "QString", "int", "bool"]),
+            ];
+            for (sig, pos, tys) in castable {
+                for t in tys.iter() {
+                    cases.push(Case { kind: "oracle", labels: vec!["param-type-mismatch".into()], request: node("c13-raw", vec![atom("reject"), st(format!("on{}", cap(sig))), st(match (*sig, *pos) {
+                        ("fired2", 1) => format!("function(p: int, q: {t}) {{ console.log(\"x\") }}"),
+                        _ => format!("function(p: {t}) {{ console.log(\"x\") }}"),
+                    })]) });
+                }
+            }
+            for (name, text) in [
+                ("onFired", "function() { console.log(\"x\") }"),
+                ("onFired", "function(): void { console.log(\"x\") }"),
+                ("onFired", "() => { console.log(\"x\") }"),
+                ("onFired", "(): void => { console.log(\"x\") }"),
+                ("onFired", "() => console.log(\"x\")"),
+                ("onFired", "{ console.log(\"x\") }"),
+                ("onFired", "console.log(\"x\")"),
+                ("onFired2", "function(p: int): void { console.log(p) }"),
+                ("onFired2", "function(p: int, q: QString): void { console.log(p, q) }"),
+                ("onFired2", "(p: int) => { console.log(p) }"),
+                ("onDefaulted", "function(p: bool): void { console.log(p) }"),
+                ("onMoved", "function(p: VBase) { console.log(\"x\") }"),
+            ] {
+                cases.push(Case { kind: "oracle", labels: vec!["handler-spelling".into()], request: node("c13-raw", vec![atom("connect-once"), st(name), st(text)]) });
+            }
+        }
         // handlers inside nested object / gadget / attached binding maps cannot be connected: each must be refused with a
         // diagnostic, never accepted and dropped (1..3 handlers per map)
         let nm = if thorough { 600 } else { 60 };
@@ -465,6 +499,39 @@ impl Stream for C13 {
                     }
                 }
                 self.run_batch(&states, &sigargs, &handlers)
+            }
+            "c13-raw" => {
+                let expect = args[0].as_atom().unwrap();
+                let name = args[1].as_str().unwrap();
+                let text = args[2].as_str().unwrap();
+                let src = crate::streams::ir::document_raw(name, text);
+                let t = env::translate(&self.tm, &src, "MyType", Mode::Generate);
+                if t.syntax_errors > 0 {
+                    return node("syntax-error", vec![st(src)]);
+                }
+                let errors: Vec<String> = t.diags.iter().filter(|d| d.is_error).map(|d| d.message.clone()).collect();
+                match expect {
+                    "reject" => {
+                        if t.accepted() {
+                            node("fail", vec![st(format!("handler with a parameter of another type than the signal's argument accepted: {name}: {text}"))])
+                        } else if errors.iter().any(|m| m.contains("incompatible callback arguments")) {
+                            node("ok", vec![atom("rejected")])
+                        } else {
+                            node("fail", vec![st(format!("rejected for another reason: {}", errors.join("; ")))])
+                        }
+                    }
+                    _ => {
+                        if !t.accepted() {
+                            return node("fail", vec![st(format!("handler spelling refused: {name}: {text}: {}", errors.join("; ")))]);
+                        }
+                        let n = t.header.as_deref().map(|h| h.matches("QObject::connect(").count()).unwrap_or(0);
+                        if n == 1 {
+                            node("ok", vec![atom("connected-once")])
+                        } else {
+                            node("fail", vec![st(format!("accepted handler {name}: {text} has {n} connections in the header (expected exactly one)"))])
+                        }
+                    }
+                }
             }
             "c13-must-reject" => {
                 let (_, ns) = args[0].as_node().unwrap();
